@@ -6,7 +6,8 @@
    both terminal); [wf] = decoder states reachable through the API. *)
 From GM Require Import Base.Prelude Base.Outcome Codec.Packets Codec.Prim Codec.ReasonCodes
   Codec.ImplDecode Codec.Framing Codec.SpecEncodeS2C.
-From GM Require Import CodecProofs.FramingP CodecProofs.DecNoPanic CodecProofs.DecReasonCodes.
+From GM Require Import CodecProofs.FramingP CodecProofs.DecNoPanic CodecProofs.DecReasonCodes CodecProofs.DecFaithfulAck
+  CodecProofs.DecFaithfulDisc CodecProofs.DecFaithfulConn CodecProofs.DecFaithfulAll.
 Open Scope N_scope.
 
 (* ---- chunking invariance: for ANY body decoder, hence for the implementation's ---- *)
@@ -103,6 +104,60 @@ Theorem C03_reason_codes_unsuback_except_143_144 : forall b, b < 256 -> b <> 143
   impl_unsuback_code_ok b = spec_unsuback_code_ok b.
 Proof. exact reason_codes_unsuback_except. Qed.
 
+(* ---- faithfulness ----
+   Every packet a server may send (CONNACK, PUBLISH, PUBACK, PUBREC, PUBREL, PUBCOMP, SUBACK, UNSUBACK,
+   PINGRESP, DISCONNECT, AUTH; MQTT 5 and 3.1.1), encoded by the independent specification encoder with
+   its properties in ANY legal order [its] ([same_per_id]: per identifier the same items in the same
+   relative order) and in any of the compact forms the specification allows, is decoded by the
+   implementation's decode_packet to exactly that packet.  The only exclusion is UNSUBACK reason code
+   143, where the property is REFUTED (next theorem). *)
+Theorem C03_faithful_packet : forall v p its compact first_byte body,
+  legal_packet v p = true ->
+  same_per_id (items_of p) its ->
+  (forall s, p = Unsuback s -> ~ In 143 (ua_codes s)) ->
+  spec_body v p its compact = Some (first_byte, body) ->
+  impl_decode_packet v first_byte body = Ok p.
+Proof. exact faithful_packet. Qed.
+
+(* per-kind instances, as named in the design *)
+Theorem C03_faithful_connack_v5 : forall c its compact fb body,
+  legal_connack V5 c = true -> same_per_id (items_connack c) its ->
+  spec_body V5 (Connack c) its compact = Some (fb, body) -> decode_connack_packet5 fb body = Ok (Connack c).
+Proof. exact decode_connack5_faithful. Qed.
+Theorem C03_faithful_publish_v5 : forall q its compact fb body,
+  legal_publish V5 q = true -> same_per_id (items_publish q) its ->
+  spec_body V5 (Publish q) its compact = Some (fb, body) -> decode_publish_packet5 fb body = Ok (Publish q) /\ fb / 16 = 3.
+Proof. exact decode_publish5_faithful. Qed.
+Theorem C03_faithful_disconnect_v5 : forall d its compact fb body,
+  legal_disconnect V5 d = true -> same_per_id (items_disconnect d) its ->
+  spec_body V5 (Disconnect d) its compact = Some (fb, body) -> decode_disconnect_packet5 fb body = Ok (Disconnect d).
+Proof. exact decode_disconnect5_faithful. Qed.
+Theorem C03_faithful_suback_v5 : forall s its compact fb body,
+  legal_suback V5 s = true -> same_per_id (items_suback s) its ->
+  spec_body V5 (Suback s) its compact = Some (fb, body) -> decode_suback_packet5 fb body = Ok (Suback s).
+Proof. exact decode_suback5_faithful. Qed.
+
+(* REFUTED: a specification-conformant UNSUBACK (reason code 0x8F Topic Filter invalid) is rejected *)
+Theorem C03_faithful_unsuback_v5_refuted :
+  exists s fb body,
+    legal_unsuback V5 s = true /\ spec_body V5 (Unsuback s) (items_unsuback s) 0 = Some (fb, body) /\
+    decode_unsuback_packet5 fb body = Err EDecodingFailure.
+Proof. exact decode_unsuback5_refuted. Qed.
+Theorem C03_faithful_unsuback_v5_except_143 : forall s its compact fb body,
+  legal_unsuback V5 s = true -> ~ In 143 (ua_codes s) -> same_per_id (items_unsuback s) its ->
+  spec_body V5 (Unsuback s) its compact = Some (fb, body) -> decode_unsuback_packet5 fb body = Ok (Unsuback s).
+Proof. exact decode_unsuback5_faithful_except_143. Qed.
+
+(* the executable encoder (order given as positions, checked to be a legal rearrangement) through the
+   framing decoder: the packet is delivered, the decoder is back in its initial state for what follows *)
+Theorem C03_faithful_stream : forall v p order compact bs rest max_size,
+  spec_encode_with v p order compact = Some bs ->
+  (forall s, p = Unsuback s -> ~ In 143 (ua_codes s)) ->
+  len bs <= effective_max max_size ->
+  decode_bytes v max_size decoder_init (bs ++ rest) =
+  (let '(d2, ps, r) := decode_bytes v max_size decoder_init rest in (d2, p :: ps, r)).
+Proof. exact faithful_stream. Qed.
+
 (* ---- non-vacuity ---- *)
 (* a PUBACK (short form) and a PINGRESP, then the first byte of another packet, fed in three reads
    that split the first fixed header: both packets come out, the decoder waits for more *)
@@ -118,3 +173,12 @@ Example C03_example_gate :
   ({| d_state := TerminalError; d_scratch := [200; 1]; d_first_byte := Some 48; d_remaining_length := None |},
    [], Err EDecodingFailure).
 Proof. vm_compute. reflexivity. Qed.
+
+(* a DISCONNECT with four properties, encoded in the order user property, server reference, reason
+   string, session expiry: a legal rearrangement, decoded to the packet *)
+Example C03_example_faithful :
+  let d := {| d_rc := 142; d_sei := Some 30; d_reason := Some [98; 121; 101];
+              d_up := Some [{| up_name := [97]; up_value := [98] |}]; d_server_ref := Some [111] |} in
+  exists bs, spec_encode_with V5 (Disconnect d) [2; 3; 1; 0] 0 = Some bs /\
+             decode_bytes V5 0 decoder_init bs = (decoder_init, [Disconnect d], Ok tt).
+Proof. eexists. split; [vm_compute; reflexivity | vm_compute; reflexivity]. Qed.
